@@ -176,6 +176,55 @@ example : Aurora.AtomicRegion.oneRegion [.lock 0, .access 0 false, .unlock 0, .l
 
 end Refresh
 
+/-! ### the settlement handshake (a peer presents the cheque it holds) -/
+
+/-- Clause 2 ("last cheque amounts … at least their values", "no cheque issued for an amount already
+    paid") for the handshake of the coarse model (`Node.handshake`, compared with the real
+    `Service.Handshake` by the `hs` op): whatever cheque a registered peer presents, the persisted last
+    sent cheque and the owed total of every address are at least what they were, the persisted traffic
+    totals are untouched, and the presented amount is covered afterwards (a cheque whose record was lost
+    is adopted) — so a stale cheque can never lower the record (seeded change C33-3). -/
+theorem C33_handshake_never_lowers (n n' : Node) (p c : Nat) (h : n.handshake p c = some n') :
+    (∀ a, (n.sLast a).getD 0 ≤ (n'.sLast a).getD 0 ∧ n.memR a ≤ n'.memR a) ∧
+    n'.stR = n.stR ∧ n'.stT = n.stT ∧ n'.memT = n.memT ∧
+    (∀ a, n.fwd p = some a → c ≤ (n'.sLast a).getD 0) := by
+  unfold Node.handshake at h
+  cases hf : n.fwd p with
+  | none => simp [hf] at h
+  | some a0 =>
+    simp only [hf] at h
+    by_cases hc : c > (n.sLast a0).getD 0
+    · simp only [hc, if_true, Option.some.injEq] at h
+      subst h
+      refine ⟨fun a => ?_, rfl, rfl, rfl, fun a ha => ?_⟩
+      · by_cases e : a = a0
+        · subst e; simp only [upd, if_true, Option.getD_some]; exact ⟨Nat.le_of_lt hc, Nat.le_max_left _ _⟩
+        · simp only [upd, e, if_false]; exact ⟨Nat.le_refl _, Nat.le_refl _⟩
+      · cases ha; simp [upd]
+    · simp only [hc, if_false, Option.some.injEq] at h
+      subst h
+      refine ⟨fun a => ⟨Nat.le_refl _, Nat.le_refl _⟩, rfl, rfl, rfl, fun a ha => ?_⟩
+      cases ha; exact Nat.le_of_not_gt hc
+
+/-- the hypothesis is satisfiable and the theorem is not about a no-op: a stale cheque (100 after 250)
+    changes nothing, a newer one (300) is adopted -/
+example :
+    let n0 : Node := { Node.init with fwd := upd Node.init.fwd 0 (some 1), sLast := upd Node.init.sLast 1 (some 250) }
+    (n0.handshake 0 100).map (fun n => n.sLast 1) = some (some 250) ∧
+    (n0.handshake 0 300).map (fun n => (n.sLast 1, n.chq 1, n.memR 1)) = some (some 300, 300, 300) := by
+  decide
+
+/-- **Known finding** (`known-findings.txt`: `C33/restart-below-before.cheque-only-peer`), as a theorem about
+    the model that the correspondence run ties to the code: a registered peer with no persisted traffic
+    total whose cheque for 300 is adopted at the handshake has owed total 300 and a persisted last cheque
+    of 300 — and after a restart owed total and cheque total are 0 while the persisted cheque is still
+    300, so the next payment starts again from 0.  Clause 2 of C33 does not hold for this history. -/
+theorem C33_cheque_only_peer_forgotten_counterexample :
+    let n0 : Node := { Node.init with fwd := upd Node.init.fwd 0 (some 1), sFwd := upd Node.init.sFwd 0 (some 1) }
+    ∃ n1, n0.handshake 0 300 = some n1 ∧ n1.memR 1 = 300 ∧ n1.sLast 1 = some 300 ∧
+      n1.restart.memR 1 = 0 ∧ n1.restart.chq 1 = 0 ∧ n1.restart.sLast 1 = some 300 := by
+  exact ⟨_, rfl, by decide, by decide, by decide, by decide, by decide⟩
+
 end Aurora.TrafficPersist
 
 namespace Aurora.Traffic
